@@ -236,9 +236,13 @@ pub(crate) mod kit {
         let mut stream = std::mem::ManuallyDrop::new(MutinyStream::<u32, C, C::Derived>::new(id, &arc));
         let waker = sm::counting_waker(id as usize + 4);
         let mut cx = Context::from_waker(&waker);
+        let running_before = arc.running_streams_count();
         let r = Pin::new(&mut *stream).poll_next(&mut cx);
         let ch = leak_static(&arc);
         let ended = matches!(r, Poll::Ready(None));
+        // a poll -- whatever it answers, end-of-stream included -- gives nothing back to the channel: the stream's id stays taken until the stream object is dropped
+        // (the pipeline built on top of it may still have items in flight; close() waits for the running-stream count to reach zero)
+        assert!(ch.running_streams_count() == running_before,                "poll: the running-stream count changes only when a stream object is dropped, never inside a poll");
         match r {
             Poll::Ready(Some(d)) => {
                 assert!(len > 0 && C::payload_of(&d) == payloads[0],          "poll: an item comes from this poll's consume, oldest first -- even when the stream was told to end (buffered events are drained first)");
